@@ -318,7 +318,7 @@ func C05(c *core.Ctx) {
 				return 0, 0
 			}}
 			var eff []ssa.Instruction
-			core.Instrs(fn, func(in ssa.Instruction) {
+			core.InstrsDeep(fn, func(in ssa.Instruction) {
 				if m == "InsertNextHopEnc" {
 					// in-place cost update of an existing entry (not of a freshly allocated one)
 					if fa, _, ok := storeToField(in, "FibNextHopEntry", "Cost"); ok {
@@ -341,7 +341,7 @@ func C05(c *core.Ctx) {
 			if m == "InsertNextHopEnc" {
 				// a new next hop is appended when no existing one matched
 				nApp := 0
-				core.Instrs(fn, func(in ssa.Instruction) {
+				core.InstrsDeep(fn, func(in ssa.Instruction) {
 					if _, v, ok := storeToField(in, "baseFibStrategyEntry", "nexthops"); ok && isAppend(v) {
 						nApp++
 					}
